@@ -93,6 +93,9 @@ def genuine(ctx, n):
         rep.case(case, ok and bool(texts[1]), tags=["genuine-address", "range" if "config" in doc and "valid_addr_range" in doc["config"] else "no-range"])
         if not ok:
             continue
+        if any(t == "" for t in texts[1]):
+            rep.dist["genuine-address:pattern-matches-the-empty-sequence(outside the quantifier)"] += 1
+            continue
         bad = None
         for t, a in zip(texts[1], addrs[1]):
             dec = gen.decode_stream(t)
